@@ -157,7 +157,10 @@ def enumerate_props():
                 "doc": doc_for(j, 100 + k),
             }
             p["rust"] = "p%d%s" % (j, "abc"[k])
-            p["name"] = pascal(p["rust"])
+            # every fifth property has an explicit D-Bus name that differs from the one derived
+            # from its Rust name
+            p["named"] = (3 * j + k) % 5 == 2
+            p["name"] = ("Renamed%d%s" % (j, "xyz"[k])) if p["named"] else pascal(p["rust"])
             ps.append(p)
     combos = {(p["ty"], p["writable"]) for p in ps}
     assert len(combos) == 6
@@ -331,8 +334,9 @@ def emit_method(m):
 def emit_prop(p):
     s = doc_lines(p["doc"])
     attr = "property" if p["emits"] else 'property(emits_changed_signal = "false")'
+    nm = (', name = "%s"' % p["name"]) if p["named"] else ""
     ty = PROP_TY[p["ty"]]
-    s += "    #[zbus(%s)]\n" % attr
+    s += "    #[zbus(%s%s)]\n" % (attr, nm)
     if p["async_get"]:
         s += "    async fn %s(&self) -> %s {\n        yield_once().await;\n" % (p["rust"], ty)
     else:
@@ -340,7 +344,7 @@ def emit_prop(p):
     s += "        %s(&self.st.prop(%s))\n    }\n\n" % (PROP_FROM[p["ty"]], rust_str(p["name"]))
     if p["writable"]:
         recv = "&mut self" if p["mut_set"] else "&self"
-        s += "    #[zbus(property)]\n"
+        s += "    #[zbus(property%s)]\n" % nm
         pid = 10000 + p["iface"] * 10 + p["idx"]
         if p["fallible_set"]:
             # the macro requires fdo::Result from `&mut self` setters and zbus::Result from `&self` ones
@@ -372,9 +376,10 @@ def emit_proxy_trait(j, ms, ps, ss):
         s += "    fn %s(&self%s)%s;\n" % (m["rust"], args, ret_ty(m, proxy=True))
     for p in ps:
         attr = "property" if p["emits"] else 'property(emits_changed_signal = "false")'
-        s += "    #[zbus(%s)]\n    fn %s(&self) -> zbus::Result<%s>;\n" % (attr, p["rust"], PROP_TY[p["ty"]])
+        nm = (', name = "%s"' % p["name"]) if p["named"] else ""
+        s += "    #[zbus(%s%s)]\n    fn %s(&self) -> zbus::Result<%s>;\n" % (attr, nm, p["rust"], PROP_TY[p["ty"]])
         if p["writable"]:
-            s += "    #[zbus(property)]\n    fn set_%s(&self, value: %s) -> zbus::Result<()>;\n" % (p["rust"], PROP_TY[p["ty"]])
+            s += "    #[zbus(property%s)]\n    fn set_%s(&self, value: %s) -> zbus::Result<()>;\n" % (nm, p["rust"], PROP_TY[p["ty"]])
     for sg in ss:
         args = "".join(", a%d: %s" % (i, sig_arg_ty_prx(t, sg["style"])) for i, t in enumerate(sg["shape"]))
         s += "    #[zbus(signal)]\n    fn %s(&self%s) -> zbus::Result<()>;\n" % (sg["rust"], args)
@@ -1574,7 +1579,7 @@ def gen():
     for p in ps:
         if p["emits"]:
             j = p["iface"]
-            o.append("        (%d, %d) => { let r = server.object_server().interface::<_, I%d>(path).await?; let g = r.get().await; g.%s_changed(r.signal_emitter()).await }\n" % (j, p["idx"], j, p["rust"]))
+            o.append("        (%d, %d) => { let r = server.object_server().interface::<_, I%d>(path).await?; let g = r.get().await; g.%s_changed(r.signal_emitter()).await }\n" % (j, p["idx"], j, p["name"].lower() if p["named"] else p["rust"]))
     o.append('        _ => panic!("bank: property does not emit"),\n    }\n}\n')
     return "".join(o)
 
